@@ -33,7 +33,7 @@ THEOREMS = [P + t for t in (
 THEOREMS += ["TLX.Props.C02Capstone." + t for t in (
     "quic_one_rtt_connection_exact", "quic_connection_exact_partial", "datagram_step", "feedAll_exact", "step_one_rtt_nc",
     "genKeys_eq_rfc", "keysWf_rfc", "devQuic_rfc", "first_initial_rfc", "hello_establishes", "hello_establishes_rfc",
-    "crypto_not_exported")]
+    "crypto_not_exported", "est_keylog_irrelevant")]
 POINT = "run(): whole QUIC export, real tool vs TLX.QuicPipeline (toy AEAD + toy hp mask, real key schedule)"
 
 
